@@ -1,12 +1,160 @@
 /-
-Driver commands of property C12 (core Lean only).  Command names start with "c12.".
+Driver commands of property C12 / C09 writer part (core Lean only).  Command names start with "c12.".
+
+  c12.trace <wc> <repaired 0|1> <faultFrom|-> <script> <events>
+      is the observed event trace a path of the writer LTS (with unobservable steps in between)?
+      answer: `path out=<ids> eof=<0|1> done=<0|1> stuck=<0|1> err=<0|1>`  or  `reject <index of first unmatched event>`
+  c12.traceu … same, but only the underlying writer's calls are observed (API events are hidden steps)
+  c12.explore <wc> <repaired 0|1> <faultFrom|-> <script>
+      exhaustive exploration of the LTS for this configuration:
+      `states=<n> dead=<n> badprefix=<n> final=<n> outs=<distinct final outs>`
+  c12.seq <script>      the sequential writer's output: `<nblocks> <eof>`
+
+script:  comma separated  w<k> | f0 | f1 | wt | c          ("-" = empty)
+events:  comma separated  C<op> (call) | R<ok|err|closed> (return) | U<blk|e>:<0|1> (underlying Write, ok flag)
 -/
 import Hts.Drv.Util
+import Hts.Model.WriterLTS
+import Std.Data.HashSet
 namespace Hts.Drv.C12
-open Hts.Drv
+open Hts.Drv Hts.Model.WriterLTS
+
+deriving instance Hashable for Op, Res, ISt, Item, ApiPc, EmPc, State
+
+def parseOp (s : String) : Option Op :=
+  if s == "wt" then some .wait
+  else if s == "c" then some .close
+  else if s == "f0" then some (.flush false)
+  else if s == "f1" then some (.flush true)
+  else if s.startsWith "w" then (parseNat (s.drop 1).toString).map .write
+  else none
+
+def parseList {α} (f : String → Option α) (s : String) : Option (List α) :=
+  if s == "-" then some [] else (s.splitOn ",").mapM f
+
+def parseRes (s : String) : Option Res :=
+  if s == "ok" then some .ok else if s == "err" then some .err else if s == "closed" then some .closed else none
+
+def parseEv (s : String) : Option Ev :=
+  if s.startsWith "C" then (parseOp (s.drop 1).toString).map .call
+  else if s.startsWith "R" then (parseRes (s.drop 1).toString).map fun r => .ret .wait r 0
+  else if s.startsWith "U" then
+    match (s.drop 1).toString.splitOn ":" with
+    | [b, k] => do
+      let ok ← if k == "1" then some true else if k == "0" then some false else none
+      if b == "e" then some (.uw none ok) else do some (.uw (some (← parseNat b)) ok)
+    | _ => none
+  else none
+
+/-- observed event vs model event: the harness cannot see `submitted`, and a return belongs to the last call -/
+def evMatch (obs e : Ev) : Bool :=
+  match obs, e with
+  | .call a, .call b => a == b
+  | .ret _ r _, .ret _ r' _ => r == r'
+  | .uw b k, .uw b' k' => b == b' && k == k'
+  | _, _ => false
+
+def mkCfg (wc : Nat) (rep : Bool) (fault : Option Nat) (script : List Op) : Cfg :=
+  { wc := wc, script := script, repaired := rep,
+    fault := fun i => match fault with | none => false | some k => decide (k ≤ i) }
+
+def parseFault (s : String) : Option (Option Nat) :=
+  if s == "-" then some none else (parseNat s).map some
+
+/-- closure under unobservable steps -/
+def isApiEv : Ev → Bool
+  | .uw _ _ => false
+  | _ => true
+
+/-- is this step unobservable?  (`hideApi`: only the underlying writer is observed, as for bam.Writer) -/
+def isTau (hideApi : Bool) : Option Ev → Bool
+  | none => true
+  | some e => hideApi && isApiEv e
+
+partial def tauClosure (cfg : Cfg) (hide : Bool) (front : List State) (seen : Std.HashSet State) (acc : List State) : List State :=
+  match front with
+  | [] => acc
+  | s :: rest =>
+    let ts := (succs cfg s).filterMap fun (_, e, t) => if isTau hide e then some t else none
+    let (front', seen', acc') := ts.foldl (fun (f, sn, a) t =>
+      if sn.contains t then (f, sn, a) else (t :: f, sn.insert t, t :: a)) (rest, seen, acc)
+    tauClosure cfg hide front' seen' acc'
+
+def closure (cfg : Cfg) (hide : Bool) (ss : List State) : List State :=
+  let seen := ss.foldl (fun sn s => sn.insert s) ({} : Std.HashSet State)
+  tauClosure cfg hide ss seen ss
+
+def dedupe (ss : List State) : List State :=
+  (ss.foldl (fun (sn, a) s => if sn.contains s then (sn, a) else (sn.insert s, s :: a))
+    (({} : Std.HashSet State), ([] : List State))).2
+
+def stepObs (cfg : Cfg) (hide : Bool) (ss : List State) (obs : Ev) : List State :=
+  dedupe ((closure cfg hide ss).flatMap fun s =>
+    (succs cfg s).filterMap fun (_, e, t) =>
+      match e with
+      | some e => if !(isTau hide (some e)) && evMatch obs e then some t else none
+      | none => none)
+
+def replay (cfg : Cfg) (hide : Bool) : List State → List Ev → Nat → Except Nat (List State)
+  | ss, [], _ => .ok ss
+  | ss, ev :: evs, i =>
+    match stepObs cfg hide ss ev with
+    | [] => .error i
+    | ss' => replay cfg hide ss' evs (i + 1)
+
+def showNats (l : List Nat) : String :=
+  if l.isEmpty then "-" else ",".intercalate (l.map toString)
+
+def b01 (b : Bool) : String := if b then "1" else "0"
+
+def traceCmd (hide : Bool) (wc : Nat) (rep : Bool) (fault : Option Nat) (script : List Op) (evs : List Ev) : String :=
+  let cfg := mkCfg wc rep fault script
+  match replay cfg hide [init cfg] evs 0 with
+  | .error i => s!"reject {i}"
+  | .ok ss =>
+    let cl := closure cfg hide ss
+    let done := cl.any fun s => decide (ApiDone s)
+    -- stuck: from the states compatible with the trace the model can reach a state that is not finished and has no step
+    let stuck := cl.any fun s => !(decide (AllIdle s)) && !(enabled cfg s)
+    match ss with
+    | [] => "reject 0"
+    | s :: _ => s!"path out={showNats s.out} eof={b01 s.eof} done={b01 done} stuck={b01 stuck} err={b01 (cl.any (·.err))}"
+
+/-- exhaustive exploration (all steps, observable or not) -/
+partial def exploreAux (cfg : Cfg) (front : List State) (seen : Std.HashSet State) (acc : List State) : List State :=
+  match front with
+  | [] => acc
+  | s :: rest =>
+    let ts := (succs cfg s).map fun (_, _, t) => t
+    let (front', seen', acc') := ts.foldl (fun (f, sn, a) t =>
+      if sn.contains t then (f, sn, a) else (t :: f, sn.insert t, t :: a)) (rest, seen, acc)
+    exploreAux cfg front' seen' acc'
+
+def exploreCmd (wc : Nat) (rep : Bool) (fault : Option Nat) (script : List Op) : String :=
+  let cfg := mkCfg wc rep fault script
+  let s0 := init cfg
+  let all := exploreAux cfg [s0] (({} : Std.HashSet State).insert s0) [s0]
+  let dead := all.filter fun s => !(decide (AllIdle s)) && !(enabled cfg s)
+  let badp := all.filter fun s => s.out != List.range s.out.length
+  let fin := all.filter fun s => decide (AllIdle s)
+  let outs := (fin.map fun s => (s.out, s.eof)).eraseDups
+  let deadDesc := match dead with
+    | [] => "-"
+    | s :: _ => (toString (repr s.api)).replace " " "" ++ "/" ++ ((toString (repr s.em)).replace " " "").replace "\n" ""
+  s!"states={all.length} dead={dead.length} badprefix={badp.length} final={fin.length} outs={outs.length} deadAt={deadDesc}"
 
 def handle (cmd : String) (args : List String) : Option String :=
   match cmd, args with
+  | "c12.traceu", [wc, rep, fault, script, evs] => do
+    some (traceCmd true (← parseNat wc) (rep == "1") (← parseFault fault) (← parseList parseOp script) (← parseList parseEv evs))
+  | "c12.trace", [wc, rep, fault, script, evs] => do
+    some (traceCmd false (← parseNat wc) (rep == "1") (← parseFault fault) (← parseList parseOp script) (← parseList parseEv evs))
+  | "c12.explore", [wc, rep, fault, script] => do
+    some (exploreCmd (← parseNat wc) (rep == "1") (← parseFault fault) (← parseList parseOp script))
+  | "c12.seq", [script] => do
+    let sc ← parseList parseOp script
+    let r := sequentialWriter sc
+    some s!"{r.1.length} {b01 r.2}"
   | _, _ => none
 
 end Hts.Drv.C12
